@@ -30,7 +30,7 @@ Proof.
     destruct o; simpl in Hok; try contradiction; reflexivity.
   - destruct Hok as [Hn Hp]. cbn [render_ofield fold_left]. rewrite (pstep_word (SOpt h)). change (flags_of (SOpt h)) with F_NONE.
     rewrite opkw_word. cbn [on_tok]. rewrite pstep_word. change (flags_of (SOptR h)) with F_NONE.
-    rewrite (classify_double _ _ _ Hn). cbn [on_tok]. unfold positive_x in Hp. rewrite Hp. reflexivity.
+    rewrite (classify_double _ _ _ Hn). cbn [on_tok]. unfold positive_x in Hp. rewrite Hp. cbn [negb]. reflexivity.
 Qed.
 
 Lemma opts_run : forall fs h, Forall ofield_ok fs ->
